@@ -39,7 +39,8 @@ def options(spec, tier="quick"):
                 near.append(cand)
         if tier != "thorough":
             near = near[:5]
-        return [ABSENT] + listed + [UNLISTED] + near
+        # values that are not strings at all (equal to the rule's own required / optional flag, or to 0 / 1)
+        return [ABSENT] + listed + [UNLISTED] + near + [False, True]
     return [ABSENT, "v"] + ([""] if tier == "thorough" else [])
 
 
